@@ -78,6 +78,10 @@ def normalize(callee):
     c2 = _norm_root(strip_generics(callee))
     # `Type<...>` generic lists without turbofish can remain in <impl ...> blocks; strip those too
     c2 = re.sub(r'<impl<[^>]*>', '<impl', c2)
+    k = c2.find('<impl [')
+    if k >= 0:
+        j = find_top(c2, k + 7, ']')
+        c2 = c2[:k] + '<impl [T]' + c2[j + 1:]
     meth = c2.rsplit('::', 1)[-1]
     return c2, None, None, meth, targs
 
